@@ -83,10 +83,13 @@ def fs17Case (id : String) (payload : List Sexp) : List String :=
         ("removed", dash (sortStrs rms)),
         ("exit", if tmpfail then "1" else "0"),
         ("confined", fsyn confined), ("cleanonly", fsyn cleanonly), ("atomic", fsyn atomic), ("frame", fsyn frame),
-        ("hardlink", fsyn hardlink), ("notemp", fsyn notemp), ("reader", "yes") ]
+        ("hardlink", fsyn hardlink), ("notemp", fsyn notemp), ("reader", "yes"),
+        -- I/O errors: a failed write ends in close + remove(temp) (C17_write_error_cleanup); a failed rename or unlink stops the
+        -- run where it is, i.e. at a crash prefix: the temp file of a failed rename stays (notedownSrc does not remove it)
+        ("fault-atomic", "yes"), ("fault-temp", if txns.isEmpty then "none" else "after-renameat-error") ]
     let spec : List (String × String) :=
       [ ("confined", "yes"), ("cleanonly", "yes"), ("atomic", "yes"), ("frame", "yes"), ("hardlink", "yes"),
-        ("notemp", "yes"), ("reader", "yes") ]
+        ("notemp", "yes"), ("reader", "yes"), ("fault-atomic", "yes") ]
     both id model spec (region c).str
   | _, _, _, _ => err id "bad-fs17-case"
 
